@@ -69,6 +69,9 @@ type vfRedis struct {
 	closed      bool
 	scripts     [][]byte
 	applied     []vfCmd // data commands applied (after MULTI/EXEC resolution)
+	flushAt     []int   // trace length at every Flush
+	nflush      int
+	failFlush   int
 }
 
 type vfReply struct {
@@ -406,7 +409,14 @@ func (r *vfRedis) Send(cmd string, args ...interface{}) error {
 	return nil
 }
 
-func (r *vfRedis) Flush() error { return nil }
+func (r *vfRedis) Flush() error {
+	r.nflush++
+	if r.failFlush != 0 && r.nflush == r.failFlush {
+		return errors.New("vf: connection lost at flush")
+	}
+	r.flushAt = append(r.flushAt, len(r.trace))
+	return nil
+}
 
 func (r *vfRedis) Receive() (interface{}, error) {
 	if len(r.pend) == 0 {
